@@ -1,3 +1,5 @@
+//go:build go1.25
+
 // Package simrt is the simulation runtime that instrumented copies of the
 // repository call into (see /verif/DESIGN.md §3.3).
 //
@@ -229,8 +231,15 @@ type Sim struct {
 	endToken     int64
 }
 
-// cur is the active simulation (at most one per process at a time).
+// cur is the active simulation (at most one per process at a time). It is
+// only ever touched from //go:norace functions.
 var cur *Sim
+
+//go:norace
+func getCur() *Sim { return cur }
+
+//go:norace
+func setCur(s *Sim) { cur = s }
 
 // ---------------------------------------------------------------------------
 // tiny PRNG (splitmix64), usable from norace code
@@ -980,7 +989,7 @@ func (s *Sim) choose(run []*Task, def, prev *Task, key string, haveSleepers bool
 // happened. It must be called from a test (synctest needs a *testing.T) and
 // only one Run may be active per process at a time.
 func Run(t *testing.T, cfg Config, root func()) (res Result) {
-	if cur != nil {
+	if getCur() != nil {
 		panic("simrt: nested Run")
 	}
 	s := &Sim{cfg: cfg}
@@ -1014,8 +1023,12 @@ func Run(t *testing.T, cfg Config, root func()) (res Result) {
 	tabReset()
 
 	outcome := ""
-	func() {
+	// The bubble runs in a sub-test of its own: when the race detector
+	// reports during the run, testing fails the bubble's test with FailNow
+	// (a Goexit); only this inner goroutine is lost and Run still returns.
+	t.Run("sim", func(t *testing.T) {
 		defer func() {
+			setCur(nil)
 			if r := recover(); r != nil {
 				msg := fmt.Sprint(r)
 				if !contains(msg, "blocked goroutines remain") {
@@ -1032,7 +1045,7 @@ func Run(t *testing.T, cfg Config, root func()) (res Result) {
 				}
 				s.start = time.Now()
 			}
-			cur = s
+			setCur(s)
 			rootTask := newTask(nil, 0)
 			rootTask.isRoot = true
 			s.handle(msg{kind: mNew, t: rootTask, site: "root"})
@@ -1040,9 +1053,10 @@ func Run(t *testing.T, cfg Config, root func()) (res Result) {
 			outcome = s.schedule()
 			s.res.SimTimeNs = int64(time.Since(s.start))
 			s.finish()
+			setCur(nil)
 		})
-	}()
-	cur = nil
+	})
+	setCur(nil)
 	raceAcquire(unsafe.Pointer(&s.endToken))
 
 	res = s.res
